@@ -28,7 +28,7 @@ REL = Fraction(1, 10**9)
 # independent references (no FFT)
 # ------------------------------------------------------------------------------------------------
 
-PROP_MODULES = ['C15', 'C15Gen', 'C15GenSlow']
+PROP_MODULES = ['C15', 'C15Gen', 'C15GenSlow', 'C15GenSlowIth']
 
 def ind_dft(x):
     N = len(x)
